@@ -17,7 +17,10 @@ def parseTask (j : Json) : Except String TaskS := do
   let strats ← mapM' Ledger.parseStrat (← fldArr j "strategies")
   return { name := ← fldStr j "name", conditional := ← fldBool j "conditional", terminal := ← fldBool j "terminal",
            prob := ← fldInt j "prob", strategies := strats, profile := ← fldNat j "profile",
-           release := ← fldInt j "release", intendedRelease := ← fldInt j "release", deadline := ← fldInt j "deadline" }
+           release := ← fldInt j "release", intendedRelease := ← fldInt j "release", deadline := ← fldInt j "deadline",
+           ts := match fldOpt j "ts" with
+             | some v => (v.getInt?.toOption).getD 0
+             | none => 0 }
 
 def parseGraph (j : Json) : Except String GraphS := do
   let tasks ← mapM' parseTask (← fldArr j "tasks")
